@@ -255,8 +255,10 @@ class BaseParser(xml.sax.ContentHandler):
             except ValueError as e:
                 self.error("could not convert key name to keytype: " + str(e))
             if not aname:
-                aname = self.basic_key(name)
-                aname = self.identifier(aname.replace('-', '_'))
+                # The attribute name is computed from the key name by
+                # folding case and converting hyphens to underscores; the
+                # result (not the key name) must be an identifier.
+                aname = self.identifier(str(name).lower().replace('-', '_'))
             return None, name, aname
 
     # schema loading logic
